@@ -142,6 +142,14 @@ def check(prop, tier):
 
     bf, binfo = batchfam.extra_findings(prop, tier)
     mine += bf
+    # "a clean file is never rewritten" at the level of system calls (strace-recorded CLI runs of the write-back family)
+    import wbfam
+
+    wr = wbfam.collect(tier)
+    wst = wr["stats"]
+    if wst["tlc_errors"] or wst["unfinished"] or wst["machinery"] or [f for f in wr["findings"] if f["clause"].startswith("B_")]:
+        common.machinery("write-back family: %s %s %s" % (wst["tlc_errors"][:2], wst["unfinished"][:3], wst["machinery"][:1]))
+    mine += [f for f in wr["findings"] if f["property"] == prop]
     known_hits, new = F.split_known(mine, prop)
     rc = common.report(prop, known_hits, new, lambda f: F.write_replay(prop, f))
     cov = {
@@ -165,6 +173,7 @@ def check(prop, tier):
         "pass_order_in_code": st["pass_order"],
         "fix_run_traces": fst["traces"],
         "command_line_model": binfo,
+        "strace_recorded_cli_runs": wst["runs"],
         "from_cache": [r.get("cached", False), fr.get("cached", False)],
         "collection_wall_s": st["wall"],
     }
